@@ -213,9 +213,15 @@ func (in *Interp) runRegion(fr *Frame, blk, prev, stop *ssa.BasicBlock, phisDone
 			if ch, ok := in.forced[k]; ok {
 				in.taken[k] = ch
 				if ch == 1 {
+					if !in.feasible(c) {
+						panic(pathDead{"forced branch infeasible"})
+					}
 					in.assume(c)
 					prev, blk = blk, blk.Succs[0]
 				} else {
+					if !in.feasible(in.ts.Not(c)) {
+						panic(pathDead{"forced branch infeasible"})
+					}
 					in.assume(in.ts.Not(c))
 					prev, blk = blk, blk.Succs[1]
 				}
